@@ -62,7 +62,7 @@ TRUSTED = [
 PARTIAL = [
     "independence/uniformity of torch.rand is trusted, not proved; chi-square smoke statistics are reported in the thorough tier, not judged",
     "rate consistency and expected_batch_size fail as coded for some L (findings D14, D12): proved as iff / _partial with counterexamples",
-    "distributed sampler drops empty local batches as coded (finding D15); empty collate is wrong for non-flat items (finding D20)",
+    "distributed sampler: dropped empty local batches until fix 52db04e (finding D15; both behaviours stay in the model, the run detects which one the tree has); empty collate is wrong for non-flat items (finding D20)",
 ]
 
 
